@@ -33,6 +33,7 @@ pub enum Case {
 pub struct Set {
     pub cases: Vec<Case>,
     pub docs: Vec<Value>,
+    pub ladder_doc: Value,
 }
 
 pub fn ladder_query(kind: &str, n: usize) -> Option<String> {
@@ -46,6 +47,9 @@ pub fn ladder_query(kind: &str, n: usize) -> Option<String> {
         "fn-nest-compare" => format!("$[?{}@.a{}]", rep("f(", n), rep(" == 1)", n)),
         "segments" => format!("${}", rep(".a", n)),
         "bracket-segments" => format!("${}", rep("[0]", n)),
+        // the node list is empty (not absent) from the first segment on
+        "segments-after-empty" => format!("$[?@.zz]{}", rep(".a", n)),
+        "bracket-segments-after-empty" => format!("$[0:0]{}", rep("[0]", n)),
         "desc-chain" => format!("${}", rep("..a", n.min(2000))),
         "union" => format!("$[{}0]", rep("0,", n)),
         "or-chain" => format!("$[?{}@.a]", rep("@.a||", n)),
@@ -60,8 +64,8 @@ pub fn ladder_query(kind: &str, n: usize) -> Option<String> {
     })
 }
 
-pub const QUERY_LADDERS: [&str; 18] = [
-    "paren", "not-paren", "nested-filter", "fn-nest", "fn-nest-broken", "fn-nest-compare", "segments", "bracket-segments", "desc-chain", "union", "or-chain", "and-chain", "singular-steps", "slice-chain", "blank-run", "long-name", "long-number", "long-exponent",
+pub const QUERY_LADDERS: [&str; 20] = [
+    "paren", "not-paren", "nested-filter", "fn-nest", "fn-nest-broken", "fn-nest-compare", "segments", "bracket-segments", "desc-chain", "union", "or-chain", "and-chain", "singular-steps", "slice-chain", "blank-run", "long-name", "long-number", "long-exponent", "segments-after-empty", "bracket-segments-after-empty",
 ];
 pub const DOC_LADDERS: [&str; 4] = ["doc-depth-built-array", "doc-depth-built-object", "doc-depth-parsed", "doc-width"];
 
@@ -70,7 +74,7 @@ pub fn required_rung(kind: &str) -> usize {
     match kind {
         "doc-depth-built-array" | "doc-depth-built-object" => 512,
         "doc-depth-parsed" => 127,
-        "doc-width" | "segments" | "bracket-segments" | "union" | "or-chain" | "and-chain" | "blank-run" | "long-name" | "long-number" | "long-exponent" | "singular-steps" | "slice-chain" => 16384,
+        "doc-width" | "segments" | "bracket-segments" | "segments-after-empty" | "bracket-segments-after-empty" | "union" | "or-chain" | "and-chain" | "blank-run" | "long-name" | "long-number" | "long-exponent" | "singular-steps" | "slice-chain" => 16384,
         _ => 128,
     }
 }
@@ -149,6 +153,17 @@ impl Set {
                 }
             }
         }
+        // long valid queries of multi-byte characters at every byte alignment; notable characters
+        // at every kind of position; 3-/4-operand formulas in every context
+        for s in gen::long_multibyte_queries() {
+            cases.push(Case::Str(s, "long-multibyte-valid"));
+        }
+        for s in gen::notable_char_strings() {
+            cases.push(Case::Str(s, "notable-characters"));
+        }
+        for s in gen::composition_queries() {
+            cases.push(Case::Str(s, "compositions"));
+        }
         // programmatic queries with extreme integers inside the I-JSON range (and the i64 limits,
         // which are outside the property's quantifier and only explored)
         use oracle::ast::*;
@@ -185,7 +200,9 @@ impl Set {
         for k in QUERY_LADDERS {
             let rungs: &[usize] = if k.starts_with("fn-nest-broken") || k.starts_with("fn-nest-compare") { &EXP_RUNGS } else { &RUNGS };
             for r in rungs {
-                if tier == Tier::Quick && (*r > 16384 || *r == 20) {
+                // the flat segment chains are cheap: the quick tier runs them to the top rung
+                let cheap = matches!(k, "segments" | "bracket-segments" | "segments-after-empty" | "bracket-segments-after-empty");
+                if tier == Tier::Quick && (*r > 16384 || *r == 20) && !cheap {
                     continue;
                 }
                 cases.push(Case::Ladder(k, *r));
@@ -205,7 +222,8 @@ impl Set {
         docs.push(Value::Array((0..300).map(|i| json!(i)).collect()));
         docs.push(json!({"w": (0..1025).map(|i| json!({"i": i})).collect::<Vec<_>>(), "s": "x".repeat(300)}));
         docs.push(json!(["aaaaaaaaaaaaaaaaaaaaaaaaaaaaaaaaaaaaaaaaaaaaaaaaaaaaaaaaaaaaaaaaaaaaaaaaaaaaaaaaaaaaaaaaaaaaaaaaaaaaaaaaaaaaaaaaaaac"]));
-        Set { cases, docs }
+        let ladder_doc = json!([{"a": {"a": {"a": 1}}, "b": [1, 2]}, [0, [0, [0, 1]]], 2, "a", {"a": "a"}]);
+        Set { cases, docs, ladder_doc }
     }
 
     fn run_str(&self, q: &str, idx: usize, all_docs: bool, light: bool, acc: &mut Acc, out: &mut Vec<(String, Value)>) {
@@ -230,7 +248,9 @@ impl Set {
         // two documents per string (all of them over time), every entry point
         let n_docs = if all_docs { self.docs.len() } else if light { 1 } else { 2 };
         for k in 0..n_docs {
-            let d = &self.docs[(idx * 2 + k) % self.docs.len()];
+            // ladder queries run on one fixed document on which their shapes select something
+            // (or an empty, not absent, node list) - a scalar root would end them at once
+            let d = if light { &self.ladder_doc } else { &self.docs[(idx * 2 + k) % self.docs.len()] };
             match libapi::query_with_path(q, d) {
                 LibOutcome::Panic(p) => out.push((format!("query_with_path panicked on {:?}: {}", short(q), p), describe("query_with_path"))),
                 LibOutcome::Err(e) if parsed.is_some() => out.push((format!("a query that parse_json_path accepts fails in query_with_path: {:?}: {}", short(q), e), describe("query_with_path"))),
@@ -281,10 +301,12 @@ fn short(q: &str) -> String {
     }
 }
 
-/// runs `f` on a thread with an 8 MiB stack, the default of a main thread
-fn on_8mib<F: FnOnce() + Send>(f: F) {
+/// runs `f` on a thread with a stack of the given size: 8 MiB, the default of a main thread, in
+/// general; 2 MiB, the default of a thread spawned by Rust's std, for the flat segment chains
+/// (a query that is long but not nested must not need stack in proportion to its length)
+fn on_stack<F: FnOnce() + Send>(bytes: usize, f: F) {
     std::thread::scope(|s| {
-        let h = std::thread::Builder::new().stack_size(8 << 20).spawn_scoped(s, f).expect("spawn");
+        let h = std::thread::Builder::new().stack_size(bytes).spawn_scoped(s, f).expect("spawn");
         let _ = h.join();
     });
 }
@@ -308,7 +330,11 @@ impl CaseSet for Set {
         acc.evaluations += 1;
         let outm = Mutex::new(&mut out);
         let accm = Mutex::new(&mut *acc);
-        on_8mib(|| {
+        let stack = match &self.cases[idx] {
+            Case::Ladder(k, _) if matches!(*k, "segments" | "bracket-segments" | "segments-after-empty" | "bracket-segments-after-empty") => 2 << 20,
+            _ => 8 << 20,
+        };
+        on_stack(stack, || {
             let mut out_l = vec![];
             let mut acc_l = Acc::default();
             match &self.cases[idx] {
@@ -342,6 +368,19 @@ impl CaseSet for Set {
                             _ => None,
                         };
                         if let Some(d) = doc {
+                            // a path as deep as the document (every segment finds its node)
+                            let matching: Option<String> = match *kind {
+                                "doc-depth-built-array" => Some(format!("${}", "[0]".repeat(*rung))),
+                                "doc-depth-built-object" => Some(format!("${}.b[-1]", ".a".repeat(*rung))),
+                                _ => None,
+                            };
+                            if let Some(q) = &matching {
+                                match libapi::query_with_path(q, &d) {
+                                    LibOutcome::Ok(ns) if ns.len() == 1 => {}
+                                    LibOutcome::Ok(ns) => out_l.push((format!("a path of {} segments into the {} ladder document at rung {} selects {} nodes instead of 1", rung, kind, rung, ns.len()), self.describe(idx))),
+                                    o => out_l.push((format!("a path of {} segments on the {} ladder at rung {}: {}", rung, kind, rung, o.brief()), self.describe(idx))),
+                                }
+                            }
                             for q in queries {
                                 match libapi::query_with_path(q, &d) {
                                     LibOutcome::Ok(_) => {}
@@ -401,6 +440,18 @@ pub fn run(ctx: &Ctx) -> Result<Evidence, String> {
         profiles.push(json!({"profile": profile, "cases": acc.evaluations}));
         total = Acc::merge(vec![total, acc]);
     }
+    // the unoptimised build: the required rungs of every ladder (and the flat chains to the top)
+    {
+        let exe = exe_for("unopt");
+        if !exe.exists() {
+            return Err(format!("{} not built (run ./vf setup)", exe.display()));
+        }
+        let part = Part::required_ladders(&set);
+        let iso = Isolation { exe, args: vec!["worker".into(), "C08".into(), "required-ladders".into(), ctx.tier.name().into()], stack_bytes: None, mem_bytes: Some(16 << 30), env: vec![], chunk: Some(1), max_deaths: 100000 };
+        let acc = run_isolated_c08(ctx, &set, &part, &iso, "unopt", &armed, &log);
+        profiles.push(json!({"profile": "unopt", "cases": acc.evaluations, "what": "ladder rungs up to the required bound, flat segment chains to the top"}));
+        total = Acc::merge(vec![total, acc]);
+    }
     // deepest passing rung per ladder and profile
     let l = log.lock().unwrap();
     for f in &ladder_findings {
@@ -414,11 +465,11 @@ pub fn run(ctx: &Ctx) -> Result<Evidence, String> {
         }
     }
     let mut ladders = serde_json::Map::new();
-    for profile in ["release", "checked"] {
+    for profile in ["release", "checked", "unopt"] {
         for k in QUERY_LADDERS.iter().chain(DOC_LADDERS.iter()) {
             let failed: Vec<usize> = l.failed.get(&(profile.to_string(), k.to_string())).map(|v| v.iter().map(|x| x.0).collect()).unwrap_or_default();
             let first_fail = failed.iter().min().copied();
-            let rungs: Vec<usize> = set.cases.iter().filter_map(|c| match c { Case::Ladder(kk, r) if kk == k => Some(*r), _ => None }).collect();
+            let rungs: Vec<usize> = set.cases.iter().filter_map(|c| match c { Case::Ladder(kk, r) if kk == k && (profile != "unopt" || *r <= required_rung(k) || is_flat_chain(k)) => Some(*r), _ => None }).collect();
             let deepest_pass = rungs.iter().filter(|r| first_fail.map(|f| **r < f).unwrap_or(true)).max().copied();
             ladders.insert(format!("{}:{}", profile, k), json!({"required_rung": required_rung(k), "deepest_passing_rung": deepest_pass, "first_failing_rung": first_fail}));
         }
@@ -443,6 +494,15 @@ impl<'a> Part<'a> {
     pub fn new(set: &'a Set, ladders: bool) -> Part<'a> {
         Part { set, idx: (0..set.cases.len()).filter(|i| matches!(set.cases[*i], Case::Ladder(..)) == ladders).collect() }
     }
+    /// the ladder rungs every build must pass: up to the required rung of each ladder, and the
+    /// flat segment chains to the top
+    pub fn required_ladders(set: &'a Set) -> Part<'a> {
+        Part { set, idx: (0..set.cases.len()).filter(|i| matches!(&set.cases[*i], Case::Ladder(k, r) if *r <= required_rung(k) || is_flat_chain(k))).collect() }
+    }
+}
+
+fn is_flat_chain(kind: &str) -> bool {
+    matches!(kind, "segments" | "bracket-segments" | "segments-after-empty" | "bracket-segments-after-empty")
 }
 impl<'a> CaseSet for Part<'a> {
     fn len(&self) -> usize {
@@ -487,7 +547,11 @@ pub fn worker_set(family: &str, tier: Tier, seed: u64) -> Box<dyn CaseSet> {
         Box::new(OneCase { set, idx })
     } else {
         let set: &'static Set = Box::leak(Box::new(set));
-        Box::new(Part::new(set, family == "ladders"))
+        if family == "required-ladders" {
+            Box::new(Part::required_ladders(set))
+        } else {
+            Box::new(Part::new(set, family == "ladders"))
+        }
     }
 }
 
